@@ -304,9 +304,11 @@ class DualVigilanceART(BaseART):
         mt_operator = self._match_tracking_operator(match_tracking)
         self.sample_counter_ += 1
         if len(self.base_module.W) == 0:
+            # first sample of a (re-)fit: forget the previous fit's bookkeeping
+            self.base_module.weight_sample_counter_ = []
+            self.map = {0: 0}
             new_w = self.base_module.new_weight(x, self.base_module.params)
             self.base_module.add_weight(new_w)
-            self.map[0] = 0
             return 0
         else:
             T_values, T_cache = zip(
